@@ -35,6 +35,13 @@ Proof.
     + apply Nat.ltb_ge in E2. apply nth_error_None. rewrite repeat_length. lia.
 Qed.
 
+Lemma nth_error_skipn' {A} (l : list A) : forall k j, nth_error (skipn k l) j = nth_error l (k + j).
+Proof.
+  induction l as [|x r IH]; intros [|k] j; cbn [skipn nth_error plus]; try reflexivity.
+  - destruct j; reflexivity.
+  - apply IH.
+Qed.
+
 (** ---- bufferExtractData: a successful extraction has the requested length and is covered
     by valid chunks *)
 Lemma extract_loop_cover G : forall cs so left acc out, 0 < G -> so < G -> 0 < left ->
